@@ -326,6 +326,8 @@ class STime:
 
   def sleep(self, d):
     s = dsched.CUR
+    if d < 0:
+      raise ValueError("sleep length must be non-negative")     # as the real time.sleep does
     if s is None:
       return
     w = s.now + d
@@ -336,6 +338,7 @@ class STime:
     return s.now if s else 0.0
 
   monotonic = time
+  perf_counter = time
 
 
 class SUuid:
